@@ -587,3 +587,71 @@ def r01p(ctx, rep, rule="R01p"):
                      detail={"expansion": repr(core)[:500]})
         else:
             rep.ok(rule, key, "%s: identifiers introduced by the expansion are defined (%s)" % (name, ", ".join(sorted(fv)) or "none"), [path])
+
+
+def r01r(ctx, rep, rule="R01r"):
+    rep.rule(rule, "force keeps the first value delivered (R7RS 4.2.5, re-entrant forcing): in the prelude's force, every call of "
+             "promise-update! lies under a test that the promise is not done yet — (unless (promise-done? p) ..), or the "
+             "negative branch of an if on promise-done? — taken after the thunk has run. The thunk may itself force the promise; "
+             "an unconditional update lets the outer, later-finishing evaluation overwrite the value already delivered.")
+    try:
+        macros, forms, path = load_macros(ctx["root"])
+    except (OSError, IndexError) as e:
+        rep.anchor_lost(rule, "marwood/prelude.scm unreadable: %s" % e)
+        return
+    d = None
+    for fm in forms:
+        if isinstance(fm, list) and len(fm) >= 3 and fm[0] == "define" and isinstance(fm[1], list) and fm[1] and fm[1][0] == "force":
+            d = fm
+    if d is None:
+        rep.anchor_lost(rule, "definition of force in prelude.scm")
+        return
+    sites = []
+
+    def is_done_test(x):
+        return isinstance(x, list) and len(x) == 2 and x[0] == "promise-done?"
+
+    def walk(x, guarded):
+        if isinstance(x, list) and x:
+            if x[0] == "promise-update!":
+                sites.append(guarded)
+            if x[0] == "unless" and len(x) >= 3 and is_done_test(x[1]):
+                for y in x[2:]:
+                    walk(y, True)
+                return
+            if x[0] == "when" and len(x) >= 3 and isinstance(x[1], list) and len(x[1]) == 2 and x[1][0] == "not" and is_done_test(x[1][1]):
+                for y in x[2:]:
+                    walk(y, True)
+                return
+            if x[0] == "if" and len(x) >= 3 and is_done_test(x[1]):
+                walk(x[2], guarded)
+                for y in x[3:]:
+                    walk(y, True)
+                return
+            for y in x:
+                walk(y, guarded)
+    # the outer `(if (promise-done? promise) value (let ...))` guards the whole else branch, but *before* the thunk runs:
+    # only tests inside the let that binds the thunk's result count
+    def find_let(x):
+        if isinstance(x, list) and x:
+            if x[0] == "let" and len(x) >= 3:
+                return x
+            for y in x:
+                r = find_let(y)
+                if r is not None:
+                    return r
+        return None
+    body = find_let(d[2:])
+    if body is None:
+        rep.anchor_lost(rule, "the let that runs the promise's thunk in force")
+        return
+    walk(body[2:], False)
+    if not sites:
+        rep.anchor_lost(rule, "promise-update! in force")
+        return
+    key = rule + "|force|update-only-if-not-done"
+    if all(sites):
+        rep.ok(rule, key, "force updates the promise only if it is still not done after its thunk returned", [path])
+    else:
+        rep.fail(rule, key, "force calls promise-update! without re-checking promise-done? after running the thunk: when the thunk "
+                 "forced the same promise, the outer evaluation overwrites the value the inner one delivered", [path])
